@@ -233,7 +233,7 @@ def _mk_clip(start, end):
 def judge_in_clip(ctx, gspec, cs, ce, m):
     from soundevent.geometry import operations as G
 
-    g = geoms.build(gspec)
+    g = geoms.build(gspec) if ctx.evaluations % 4 else geoms.build_derived(gspec, ctx.rng)
     clip = _mk_clip(cs, ce)
     st, v = _call(ctx, G.is_in_clip, g, clip, m)
     spec = {"kind": "in_clip", "g": gspec, "clip": [cs, ce], "m": m}
@@ -250,6 +250,8 @@ def judge_geoms(ctx, axis, s1, s2, a, r):
 
     fn = G.have_temporal_overlap if axis == "temporal" else G.have_frequency_overlap
     g1, g2 = geoms.build(s1), geoms.build(s2)
+    if ctx.evaluations % 4 == 0:
+        g1, g2 = geoms.build_derived(s1, ctx.rng), geoms.build_derived(s2, ctx.rng)
     kw = {}
     if a is not None:
         kw["min_absolute_overlap"] = a
